@@ -161,9 +161,15 @@ def music_mask(data):
     return bytes(d)
 
 
-def write_p8(regions, code, version=33, label=None, final_newline=True, order=None, omit=()):
+TRIM_DEFAULT_ROW = {'gfx': b'0' * 128 + b'\n', 'gff': b'00' * 128 + b'\n', 'map': b'00' * 128 + b'\n', 'music': b'00 41424344\n',
+                    'sfx': b'00100000' + b'00000' * 32 + b'\n'}
+
+
+def write_p8(regions, code, version=33, label=None, final_newline=True, order=None, omit=(), trim=()):
     """Reference .p8 writer.  regions: dict name -> bytes; code: P8SCII bytes.
-    order: section order (default lua gfx label gff map sfx music); omit: sections left out entirely."""
+    order: section order (default lua gfx label gff map sfx music); omit: sections left out entirely; trim: sections written the way
+    current PICO-8 writes them, without their trailing rows that hold only default contents (all-zero gfx/gff/map rows, silent music
+    patterns `00 41424344`, unused sfx `00100000` + 32 empty notes)."""
     parts = {}
     lua = [b'__lua__\n', p8_to_unicode(code).encode('utf-8')]
     if final_newline and not code.endswith(b'\n'):
@@ -179,6 +185,10 @@ def write_p8(regions, code, version=33, label=None, final_newline=True, order=No
     parts['sfx'] = [b'__sfx__\n'] + [(r + '\n').encode() for r in sfx_rows(regions['sfx'])]
     parts['music'] = [b'__music__\n'] + [(r + '\n').encode() for r in music_rows(regions['music'])]
     out = [P8_HEADER, b'version %d\n' % version]
+    for name in trim:
+        rows = parts[name]
+        while len(rows) > 1 and rows[-1] == TRIM_DEFAULT_ROW[name]:
+            rows.pop()
     for name in (order or ('lua', 'gfx', 'label', 'gff', 'map', 'sfx', 'music')):
         if name in parts and name not in omit:
             out.extend(parts[name])
